@@ -55,6 +55,7 @@ PROPS = {
     "C04": {
         "builds": ["ark", "min"], "level": "exploration", "design_ref": "DESIGN.md §3 C04",
         "monitor_profile": [("ark", "C04"), ("min", "C04")],
+        "monitor_profile_quick": [("ark", "C04"), ("min", "C04")],
         "technique": "runtime reference-model monitor (shadow BigUint group law) over a form catalogue x hostile operand zoo + random "
                      "straight-line programs; structural-invariant hook on every result",
         "rule": "every catalogued operator form (name listed under forms) x operand-class matrix (10 partner relations "
@@ -73,6 +74,7 @@ PROPS = {
     "C05": {
         "builds": ["ark", "min"], "level": "exploration", "design_ref": "DESIGN.md §3 C05",
         "monitor_profile": [("min", "C05")],
+        "monitor_profile_quick": [("min", "C05")],
         "technique": "runtime reference-model monitor: every scalar-multiplication form against model double-and-add by the integer "
                      "scalar (no reduction), scalar zoo x element classes, module laws, MSM sizes across window boundaries, order checks",
         "rule": "scalar zoo as integers (0,1,2,r-1,(r+-1)/2, 2^k, all-ones limbs, r, r+1, 2r, 2^256-1, 2^320, 2^512-1, r^2, random) x "
